@@ -200,7 +200,9 @@ func (*c09) Gen(rng *RNG, tier string) []Case {
 	// random large universes, permutations and duplicates, parse strings
 	types := []string{"repository", "registry", "foo", "repo", "", "repository2", "Repository", "REGISTRY"}
 	ress := []string{"", "a", "b", "a/b", "catalog", "zz", "A", "a b", "é", "\xff", "a:b", "x,y", "Catalog", "CATALOG"}
-	acts := []string{"pull", "push", "*", "delete", "", "pul", "pushx", "pull,push", "PULL", "Push", "pULL", "PUSH", "pull ", " push"}
+	acts := []string{"pull", "push", "*", "delete", "", "pul", "pushx", "pull,push", "PULL", "Push", "pULL", "PUSH", "pull ", " push",
+		// unknown actions that sort between, next to and around the two known ones (seed C09-12: Iter order inside one repository)
+		"pull-through", "pulp", "pullx", "pus", "pull\x00", "pum", "pusha", "q", "o", "pulk"}
 	randRS := func() rsT {
 		switch rng.Intn(10) {
 		case 0:
@@ -270,7 +272,7 @@ func (*c09) Gen(rng *RNG, tier string) []Case {
 				na := 1 + rng.Intn(3)
 				var as []string
 				for q := 0; q < na; q++ {
-					as = append(as, pick(rng, []string{"pull", "push", "delete", "*", "", "PULL", "Push"}))
+					as = append(as, pick(rng, []string{"pull", "push", "pull", "push", "delete", "*", "", "PULL", "Push", "pull-through", "pulp", "pum", "pusha", "q"}))
 				}
 				sb.WriteString(pick(rng, []string{"repository", "repository", "foo"}) + ":" + pick(rng, []string{"a", "b", "a/b", "", "zz"}) + ":" + strings.Join(as, ","))
 			}
